@@ -35,7 +35,8 @@ DEMUX_CFG = {
         ("L2/len5", dict(D2, MaxLen=5, Probe=4, PktProbe=3)),
         ("L2/ext/len4", dict(D2, Ssrcs="{1}", Ext="ExtAll", MaxLen=4, Probe=3, PktProbe=3)),
         ("L2/extras/len4", dict(D2, MaxLen=4, Probe=3, PktProbe=2, Extras='{"full", "ext"}')),
-        ("L3/sim", dict(D3, MaxLen=12, Probe=0, PktProbe=0, sim=(250, 12), Extras='{"full", "ext"}')),
+        ("L2/bridge/len4", dict(D2, Ssrcs="{1}", MaxLen=4, Probe=4, PktProbe=3, Extras='{"bridge"}')),
+        ("L3/sim", dict(D3, MaxLen=12, Probe=0, PktProbe=0, sim=(250, 12), Extras='{"full", "ext", "bridge"}')),
     ],
     "thorough": [
         # probes (incl. the binding table: an id-less probe of each SSRC shows whom it is bound to) through every
@@ -46,7 +47,8 @@ DEMUX_CFG = {
         ("L3/ext/len4", dict(D3, Rids="{1, 2}", Ext="ExtAll", MaxLen=4, Probe=3, PktProbe=2)),
         ("L2/extras/len5", dict(D2, MaxLen=5, Probe=4, PktProbe=3, Extras='{"full", "ext"}')),
         ("L3/extras/len4", dict(D3, MaxLen=4, Probe=3, PktProbe=2, Extras='{"full", "ext"}')),
-        ("L3/sim", dict(D3, MaxLen=16, Probe=0, PktProbe=0, sim=(3000, 16), Extras='{"full", "ext"}')),
+        ("L2/bridge/len5", dict(D2, MaxLen=5, Probe=5, PktProbe=4, Extras='{"bridge"}')),
+        ("L3/sim", dict(D3, MaxLen=16, Probe=0, PktProbe=0, sim=(3000, 16), Extras='{"full", "ext", "bridge"}')),
         ("L3/ext/sim", dict(D3, Rids="{1, 2}", Ext="ExtAll", MaxLen=20, Probe=0, PktProbe=0, sim=(1500, 20),
                             Extras='{"full", "ext"}')),
     ],
